@@ -5,7 +5,10 @@
 //! `handle_established_{in,out}bound_connection` + `on_swarm_event(ConnectionEstablished)`,
 //! `on_swarm_event(ConnectionClosed / DialFailure)` with synthetic `ConnectionId`s, and handler
 //! events built with the `verif_c45` hook constructors and injected through
-//! `on_connection_handler_event`.  After every op the behaviour is polled dry (Dial /
+//! `on_connection_handler_event`.  Only IN-CONTRACT sequences are generated (`World::in_contract`:
+//! what a real Swarm + Handler can deliver — fresh connection ids, handler events only for open
+//! connections and, for completions, only for requests that handler holds, delivered before the
+//! `ConnectionClosed`; fresh inbound ids); `--replay` executes its ops verbatim.  After every op the behaviour is polled dry (Dial /
 //! NotifyHandler / GenerateEvent), the preloaded handler is interrogated, and `is_pending_*` is
 //! sampled for every (peer, id).
 //!
@@ -141,6 +144,11 @@ struct World {
     waker: Waker,
 }
 
+fn peers() -> Vec<PeerId> {
+    static P: std::sync::OnceLock<Vec<PeerId>> = std::sync::OnceLock::new();
+    P.get_or_init(|| (0..NP).map(|i| hcore::peer(i as u8 + 1)).collect()).clone()
+}
+
 fn addr(c: usize) -> Multiaddr {
     format!("/memory/{}", c + 1).parse().unwrap()
 }
@@ -153,7 +161,7 @@ impl World {
     fn new(real: bool) -> World {
         World {
             b: B::new([("/c45/1", ProtocolSupport::Full)], rr::Config::default()),
-            peers: (0..NP).map(|i| hcore::peer(i as u8 + 1)).collect(),
+            peers: peers(),
             issued: 0,
             in_ids: BTreeSet::new(),
             open: vec![0; NP],
@@ -722,7 +730,7 @@ pub fn run(args: &Args, out: &mut Out) {
         let full = alphabet(true); // 15 ops
         let core8 = alphabet(false); // 8 ops
         let core5: Vec<Op> = core8[..5].to_vec(); // send, est, closed, dialfail, response
-        let (l15, l8, l5) = if args.thorough { (5, 6, 0) } else { (3, 5, 6) };
+        let (l15, l8, l5) = if args.thorough { (5, 7, 8) } else { (4, 6, 7) };
         for len in 1..=l15 {
             enumerate(out, &mut idx, &full, len, "exh15");
         }
